@@ -526,10 +526,12 @@ package psatoken
 //@   ensures[class] ret != nil ==> errOnly(ret, ErrWrongSyntax)
 //@   modifies c.VSI
 
+// profile 2 has no "no measurements" form: a nil list is not a value its validation accepts (an empty,
+// non-nil list is the statement's "clear" operation and exempt from the iff)
 //@ func (*P2Claims).SetSoftwareComponents
 //@   property C11 C05 C13
 //@   requires c != nil && wfComps(c.SwComponents) && inputComps(scs)
-//@   ensures[iff] (ret == nil) == inputCompsValid(scs)
+//@   ensures[iff] (ret == nil) == (scs != nil && inputCompsValid(scs))
 //@   ensures[set] ret == nil ==> wfComps(c.SwComponents) && c.SwComponents != nil && sameComps(compsOf(c.SwComponents), scs)
 //@   ensures[unchanged] ret != nil ==> (old(c.SwComponents) == nil ==> wfComps(c.SwComponents) && specNoComps(c.SwComponents)) && (old(c.SwComponents) != nil ==> c.SwComponents == old(c.SwComponents) && compsOf(c.SwComponents) == old(compsOf(c.SwComponents)))
 //@   ensures[class] ret != nil ==> errOnly(ret, ErrMissingMandatory) || errOnly(ret, ErrWrongSyntax)
